@@ -29,6 +29,8 @@ class ExprMixin:
 
     # ------------------------------------------------------------ forcing
     def force(self, v: V) -> V:
+        if isinstance(v, VDyn) and getattr(self, "pure_mode", 0):
+            return v  # element expressions of symbolic comprehensions stay unforked; consumers that need the kind reject VDyn
         if isinstance(v, VOpt):
             if self.branch(v.isnone):
                 return NONE
@@ -217,7 +219,9 @@ class ExprMixin:
 
     # ------------------------------------------------------------ sequences
     def seq_get(self, s: VSeq, idx) -> V:
-        return self.force(unpack(s.elem, [z3.Select(a, idx) for a in s.arrs]))
+        v = self.force(unpack(s.elem, [z3.Select(a, idx) for a in s.arrs]))
+        self.assume_allocated(v)
+        return v
 
     def seq_get_raw(self, s: VSeq, idx) -> V:
         return unpack(s.elem, [z3.Select(a, idx) for a in s.arrs])
@@ -363,6 +367,8 @@ class ExprMixin:
             return Ref(v.sort)
         if isinstance(v, VEnum):
             return Enum(v.enum)
+        if isinstance(v, VDyn):
+            return v.ty
         if isinstance(v, VTuple):
             return Tup(*[self.infer_elem(x) for x in v.items])
         raise OutOfSubset(f"cannot infer element type of {v!r}")
